@@ -18,7 +18,7 @@ from .. import types as T
 from ._h_A import (FactReach, Facts, branch_succ, loop_breaks, nodes_of_stmts, nodes_for, kwarg,
                    is_const, stmts_in, never_returns, inliner, expander, bind_call, call_arg,
                    real_loops, Owners, followed, returns_of, value_at, strip_wrappers, atom_of,
-                   reaching_defs)
+                   reaching_defs, built_list)
 
 EXPLANATION = (
   "Decides the structural legs of the out-of-order protocol that keeps a formula from ever being "
@@ -381,7 +381,7 @@ def r1_scan(run, w, sc):
       just["%s in %s.row_ids" % (sc.row, nm)] = False
   just["%s in self.tables[%s.table_id].row_ids" % (sc.row, sc.p_node)] = False
   evals = sc.eval_nodes(cfg)
-  fr = Facts(cfg, set(just) | {sc.flag, "allow_evaluation"}, ex=None,
+  fr = Facts(cfg, set(just) | {sc.flag, "allow_evaluation"}, ex=ex,
              noreturn=lambda n: never_returns(w, fn, n))
   seen = fr.run([(s, {}) for s in starts], stop={head} | evals)
   arrivals = [f for f in seen.get(head, [])]
@@ -838,23 +838,18 @@ def r4_lookups_first(run, w):
               cfg.nodes[next(iter(rd))].stmt.value is s
         built_in_order = bool(src_ok) and not g.ifs
         continue
-    if isinstance(r.value, ast.Name):
+    bl = built_list(fn, cfg, du, n.id, r.value.id) if isinstance(r.value, ast.Name) else None
+    if bl is not None:
       # <out> = []; for <n> in <sorted>: <out>.append(WorkItem(<n>, ...)); return <out>
-      out_v = r.value.id
-      apps = [(x, c) for (x, c, nm) in fn.calls() if nm == "%s.append" % out_v]
-      lps = [lp for lp in real_loops(fn.node.body, ast.For)
-             if any(x.id in nodes_of_stmts(cfg, lp.body) for (x, c) in apps)]
-      if len(apps) == 1 and len(lps) == 1 and not loop_breaks(lps[0]) and \
-          not stmts_in(lps[0].body, (ast.Continue, ast.If)):
-        it = lps[0].iter
-        hd = next(iter(nodes_for(cfg, lps[0])))
-        src_ok = text(it) == text(s)
-        if isinstance(it, ast.Name):
-          rd = reaching_defs(cfg, du, hd, it.id)
-          src_ok = len(rd) == 1 and isinstance(cfg.nodes[next(iter(rd))].stmt, ast.Assign) and \
-              cfg.nodes[next(iter(rd))].stmt.value is s
-        built_in_order = bool(src_ok)
-        continue
+      elt, tgt, it, lp = bl
+      hd = next(iter(nodes_for(cfg, lp)))
+      src_ok = text(it) == text(s)
+      if isinstance(it, ast.Name):
+        rd = reaching_defs(cfg, du, hd, it.id)
+        src_ok = len(rd) == 1 and isinstance(cfg.nodes[next(iter(rd))].stmt, ast.Assign) and \
+            cfg.nodes[next(iter(rd))].stmt.value is s
+      built_in_order = bool(src_ok)
+      continue
     raise AnalysisError("_make_sorted_work_items: cannot follow how the returned list is built "
                         "(`%s`)" % short(v))
   if built_in_order is None:
